@@ -113,7 +113,7 @@ def opDirw (old : Bool) (off0 hlinks xattr parent : Nat) (ents : List (List UInt
   | .error e => e
   | .ok es =>
     let st0 := prefill rawCodec 0 (off0 + 1) off0 {}
-    let (runs, _) := dirEnd rawCodec st0 es
+    let (runs, _) := dirEndM rawCodec st0 es
     let bytes := (runs.map encodeRun).flatten
     let ref := dirRefOf st0
     let ino := createInodeCap (if old then none else some maxIndex) ref runs es.length hlinks xattr parent
@@ -127,7 +127,7 @@ def opDirx (cmp : Codec) (keep exp : Bool) (off0 hlinks xattr parent rootNum roo
   | .error e => e
   | .ok es =>
     let st0 := prefill cmp 0x55 (off0 + 1) off0 {}
-    let (runs, st1) := dirEnd cmp st0 es
+    let (runs, st1) := dirEndM cmp st0 es
     let ref := dirRefOf st0
     let ino := createInode ref runs es.length hlinks xattr parent
     let k : Keep := Keep.flush cmp { st := st1 }
@@ -138,13 +138,13 @@ def opDirx (cmp : Codec) (keep exp : Bool) (off0 hlinks xattr parent rootNum roo
       if exp then
         if rootNum < 1 then s!" export=err -{errArgInvalid}" else
         let t := exportTable (es.map (fun e => (e.inodeNum, e.inodeRef))) rootNum rootRef
-        let w := writeTable cmp tbl.length (t.map le64b).flatten
+        let w := writeTableM cmp tbl.length (t.map le64b).flatten
         s!" export start={w.start} {toHexTok (blocksBytes w.blocks ++ (w.locs.map le64b).flatten)}"
       else ""
     s!"ok filebefore={before} table={toHexTok tbl} size={dirSizeOf runs} ref={ref} count={es.length} {inodeText ino}{expTxt}"
 
 def opTable (cmp : Codec) (base : Nat) (data : List UInt8) : String :=
-  let w := writeTable cmp base data
+  let w := writeTableM cmp base data
   let locs := if w.locs.isEmpty then "-" else ",".intercalate (w.locs.map toString)
   s!"start={w.start} locs={locs} file={toHexTok (blocksBytes w.blocks ++ (w.locs.map le64b).flatten)}"
 
@@ -173,7 +173,7 @@ def opIds (lim : Nat) (ids : List Nat) (range : Bool) : String :=
   | some k => s!"{head} overflow-at={k}"
   | none =>
     let bytes := (tbl.map (fun v => le16b (v % 65536) ++ le16b (v / 65536 % 65536))).flatten
-    let w := writeTable rawCodec 0 bytes
+    let w := writeTableM rawCodec 0 bytes
     s!"{head} id_count={superIdCount tbl} table_bytes={w.start}"
 
 def parseTbl (s : String) : Option (Option Sqfs.Finish.Tbl) :=
